@@ -320,6 +320,7 @@ def run(ctx):
             programs=len(cs),
             history_dependent_programs=n_hist_dep,
             rule="%d (routine set, call site) programs: identity routines for every (parameter, return) type pair called with 3 (thorough 8) argument types; arithmetic, if/else-return, early-return, loop, postfix-temporary, nested, by-reference, "
+            "every integer type spelling of a signature (int, unsigned, sizeN[su]_t, [u]intN_t) as parameter and as return type; 15 argument forms (explicit casts, casts of casts, arithmetic, comparison, literals, ?:) x parameter types; calls next to a folded-away call in a caller and in a body; "
             "enum/bundle pass-through, void and name-clash routines at call sites with 1..4 calls per expression; bundled routines at multi-call sites; each compiled after k = 0..2 (thorough 0..4) temporaries were numbered on the same instance "
             "and on a second instance, each history in a forked child; run on the complete E5 domain of the arguments and USR (budget per program in `state_budget`); oracle: cref with true C call semantics + frame monitor" % len(cs),
             exhaustive=True,
